@@ -215,6 +215,7 @@ static int d_fvec5_null(fx_t *F, int v, dv_t *o)
 {
     int n = d_fvec5(F, v, o);
     o[2].cls = X_ALT;	/* vnacal_new_set_m_error: sign not documented */
+    n = dvp(o, n, F->fcrowd, X_ALT, 0, "crowded");
     return dvp(o, n, NULL, X_ALT, 0, "NULL");
 }
 /* vnacal_make_correlated_parameter: NULL only with one sigma per point of
